@@ -495,6 +495,72 @@ func init() {
 		}
 		p.Tail()
 	}})
+	Probes = append(Probes, Probe{"replace-files-of-about-one-transaction", []string{"C05", "C04"}, 16000, func(p *P) {
+		// RENAME over a file whose freeing just about fills one journal transaction, from another directory: the
+		// transaction also carries both directories' blocks and the replaced file's inode
+		const B = 4096
+		d := p.Mkdir(p.Root, "d").RFh
+		for _, nb := range []int{490, 496, 500, 501, 502, 503, 504, 505, 506, 507, 508, 509, 510, 512} {
+			f := p.Create(p.Root, "t").RFh
+			for off := 0; off < nb; off += 400 {
+				n := nb - off
+				if n > 400 {
+					n = 400
+				}
+				p.Write(f, off*B, n*B, 2)
+			}
+			p.Create(d, "s")
+			p.Rename(d, "s", p.Root, "t")
+			p.Getattr(f)
+			p.Remove(p.Root, "t")
+			p.S.WaitIdle()
+			p.T.Emit(TakeSnap(p.S, "run", true))
+		}
+		p.Tail()
+	}})
+	Probes = append(Probes, Probe{"free-file-spread-over-four-bitmap-blocks", []string{"C05", "C11"}, 3*32768 + 2000, func(p *P) {
+		// a file whose blocks lie in the areas of four bitmap blocks (the default 400 MB disk has four): every
+		// transaction that frees part of it writes up to four bitmap blocks on top of the blocks it zeroes
+		const B = 4096
+		fill := func(name string, nb int) {
+			f := p.Create(p.Root, name).RFh
+			for off := 0; off < nb; off += 400 {
+				n := nb - off
+				if n > 400 {
+					n = 400
+				}
+				p.Write(f, off*B, n*B, 2)
+			}
+		}
+		SnapSkipNonZero = true
+		defer func() { SnapSkipNonZero = false }()
+		const L = 520 + 512 + 503
+		a := p.Create(p.Root, "a").RFh
+		for off := 0; off < L-3; off += 400 {
+			n := L - 3 - off
+			if n > 400 {
+				n = 400
+			}
+			p.Write(a, off*B, n*B, 2)
+		}
+		fill("b", 31500)
+		p.Write(a, (L-3)*B, B, 2)
+		fill("c", 32768)
+		p.Write(a, (L-2)*B, B, 2)
+		fill("d", 31500)
+		p.Write(a, (L-1)*B, B, 2)
+		p.Trunc(a, 0)
+		p.S.WaitIdle()
+		p.Getattr(a)
+		p.Write(a, 0, 100, 2)
+		p.Remove(p.Root, "a")
+		for _, n := range []string{"b", "c", "d"} {
+			p.Remove(p.Root, n)
+		}
+		p.S.WaitIdle()
+		p.T.Emit(TakeSnap(p.S, "run", true))
+		p.Tail()
+	}})
 	Probes = append(Probes, Probe{"remove-while-truncation-is-in-progress", []string{"C05", "C12", "C04"}, 16000, func(p *P) {
 		const B = 4096
 		for round := 0; round < 3; round++ {
